@@ -309,7 +309,7 @@ def run(ctx):
                 summary_check(ctx, st, g, trace)
         finally:
             st.close()
-    ctx.cov["rule"] = ("generated cells × widths → Go formatTreeLine/truncateToWidth/abbreviate and replayed graphs → buildListRoots rows/topoSort/computeStats vs the Lean model; "
+    ctx.cov["rule"] = ("summary counts also for --epic E views; a store whose only open task is todo-with-claimant (torn claim): every --ready view prints its sentence; a result line under a row; generated cells × widths → Go formatTreeLine/truncateToWidth/abbreviate and replayed graphs → buildListRoots rows/topoSort/computeStats vs the Lean model; "
                        "real `list` (default, --all, --ready, --epics) on a pty of widths 14…240 and on a pipe, for stores with wide/combining/multi-byte titles and agent names, blockers, "
                        "epic dependencies: UTF-8 validity, row width = W−2 and id column (for W ≥ prefix+icon+12), one row per item, glyphs/nesting, view membership, summary counts, empty sentences")
     ctx.assumptions += ["display width as go-runewidth computes it; result-URL lines (`→ file://…`) are not item rows", "what a terminal does with zero-width/ambiguous characters is outside the check"]
